@@ -202,6 +202,12 @@ add("C20", "fixed", "error-position:negative-index:eof:LiquidSyntaxError",
     "'missing or unexpected path segment') carried the shared end-of-stream token with index -1 and an empty source, so they had no line or column",
     [c20("a\n{% if x %}"), c20("{{ a | }}"), c20("x\n{% assign x = %}"), c20("{{  }}"), c20("{% liquid\nif x\n%}"), c20("{{ a[ }}"), c20("{% for i in (1..3) %}{% if a %}\n")], "16fc7c4")
 
+# ----------------------------------------------------------------------------- C08 fixed
+add("C08", "fixed", "outcome-altered:output_stream_limit",
+    "configuring any output_stream_limit rewrote \\r\\n and \\r in the output to \\n (LimitedStringIO passed newline=None to StringIO, enabling universal-newline translation): "
+    "'a\\r\\nb' rendered 'a\\nb' under a limit of 1000",
+    [{"source": "a\r\nb\rc{{ x }}", "partials": {}, "data": V.enc({"x": "\r\n"}), "only": ["output_stream_limit"]}], "c3f8aff")
+
 if __name__ == "__main__":
     # further entries are appended by tools/mkfindings.py from triaged replay files and kept in findings_extra.json
     extra_path = os.path.join(VERIF, "tools", "findings_extra.json")
